@@ -269,10 +269,16 @@ class DemoStorage(ConflictResolvingStorage):
                 if not ZODB.interfaces.IBlobStorage.providedBy(self.base):
                     raise ZODB.POSException.POSKeyError(oid, serial)
                 raise
-        except AttributeError:
+        except (AttributeError, TypeError):
+            if ZODB.interfaces.IBlobStorage.providedBy(self.changes):
+                raise
             if self._blobify():
                 return self.loadBlob(oid, serial)
-            raise
+            # The changes storage we were given cannot hold blobs: the
+            # blob can only be in the base.
+            if not ZODB.interfaces.IBlobStorage.providedBy(self.base):
+                raise
+            return self.base.loadBlob(oid, serial)
 
     def openCommittedBlobFile(self, oid, serial, blob=None):
         try:
@@ -284,10 +290,15 @@ class DemoStorage(ConflictResolvingStorage):
                 if not ZODB.interfaces.IBlobStorage.providedBy(self.base):
                     raise ZODB.POSException.POSKeyError(oid, serial)
                 raise
-        except AttributeError:
+        except (AttributeError, TypeError):
+            if ZODB.interfaces.IBlobStorage.providedBy(self.changes):
+                raise
             if self._blobify():
                 return self.openCommittedBlobFile(oid, serial, blob)
-            raise
+            # (see loadBlob)
+            if not ZODB.interfaces.IBlobStorage.providedBy(self.base):
+                raise
+            return self.base.openCommittedBlobFile(oid, serial, blob)
 
     def loadSerial(self, oid, serial):
         try:
